@@ -71,6 +71,42 @@ def run(tier, seed):
                     samples.append(acts[:25])
         if name == "hub":
             rep.add(max_live_out_edges_of_one_node=max(len(e["obs"]["out"][0]) for e in ev if "obs" in e and e["obs"]["out"]))
+    # ---- ChunkedAdjacency on its own: LpgStore never calls the compaction entry points, so chunk / delta / cold thresholds
+    # are exercised through the public type (capacities 2, 3 and the default 64)
+    ADJ = os.path.join(SPECDIR, "Adjacency.tla")
+    cfg = V.write_cfg(os.path.join(wd, "mc-adj.cfg"), constants={"Src": "{1, 2}", "Cap": 2, "DeltaThr": 2, "ColdThr": 1, "MaxAdds": 4 if tier == "quick" else 6},
+                      invariants=["Refines", "ChunksWithinCapacity"])
+    r = V.tlc(ADJ, cfg, name="C14adj", workers=8, timeout=2400)
+    V.log(f"[C14] TLC Adjacency: {r.summary()}")
+    if r.timeout:
+        rep.notes.append("Adjacency MC timed out")
+    elif not r.ok:
+        rep.violation(f"TLC: {r.violation} in Adjacency.tla", {"tlc": V.tlc_trace_text(r)[-4000:]}, tag="mc")
+    mcs.append({"config": "Adjacency.tla chunk/delta/cold mechanism refines the live-entry sequence", **r.summary()})
+    states += r.distinct
+    trans += r.generated
+    tp = os.path.join(wd, "adj.ndjson")
+    V.gv(["adj", "--seed", seed, "--traces", 9 if tier == "quick" else 90, "--len", 90 if tier == "quick" else 160, "--out", tp], timeout=1800)
+    ev = V.read_ndjson(tp)
+    acfg = V.write_cfg(os.path.join(wd, "adj.cfg"), constants={"NSrc": 3}, postcondition="Accepted")
+    ATRACE = os.path.join(SPECDIR, "Trace_Adjacency.tla")
+    groups, batch = [], []
+    for _, tr in V.split_traces(ev):
+        batch += tr
+        if len(batch) >= 900:
+            groups.append(batch)
+            batch = []
+    if batch:
+        groups.append(batch)
+    for gi, g in enumerate(groups):
+        ok, nev, rej = V.validate_all(ATRACE, acfg, g, name=f"C14-adj-{gi}", wd=wd, max_violations=2, timeout=1200)
+        tot_tr += ok
+        tot_ev += nev
+        for rj in rej:
+            rep.violation(f"ChunkedAdjacency (chunk capacity {rj['trace'][0].get('cap')}): after event #{rj['offset']} ({(rj['event'] or {}).get('a')}) "
+                          "edges_from / neighbors / degree / active count differ from the live entries",
+                          {"adjacency": True, "script": strip(rj["trace"])})
+    rep.add(adjacency_events=len(ev), adjacency_max_entries_one_source=max(len(e["obs"]["ef"][0]) for e in ev if "obs" in e))
     ev = V.read_ndjson(os.path.join(wd, "mixed.ndjson"))[:8]
     bad = json.loads(json.dumps(ev))
     bad[4]["obs"]["od"][0] += 1
@@ -89,12 +125,17 @@ def run(tier, seed):
     rep.assumptions += ["the store is driven through its non-transactional API, single-threaded",
                         "set_node_property is only issued for live nodes (the API does not check liveness)",
                         "LpgStoreConfig is not exported, so the store without backward adjacency is unreachable through the public API and not exercised",
-                        "ChunkedAdjacency compaction entry points are exercised by C15, not here"]
+                        "ChunkedAdjacency is driven directly (capacities 2, 3, 64) because LpgStore never calls its compaction entry points"]
     return rep.finish()
 
 
 def replay(path):
     obj = json.load(open(path))
+    if obj["replay"].get("adjacency"):
+        print(json.dumps(obj["replay"]["script"])[:3000])
+        print("ChunkedAdjacency history above; re-run `bin/check C14` to regenerate and re-validate")
+        print(f"VIOLATION property=C14 replay={path}")
+        return 1
     wd = V.workdir("replay-lpg")
     sp = os.path.join(wd, "s.ndjson")
     V.write_ndjson(sp, [{"bw": True, "script": obj["replay"]["script"]}])
